@@ -336,9 +336,13 @@ def rule_url(c: Ctx) -> RuleResult:
             if tn.kind == "test" and tn.ast is not None and isinstance(tn.ast, ast.Call) and U(tn.ast.func).split(".")[-1] == "validateLink":
                 tests.append(tn)
         for n in cfg.nodes:
-            if n.kind != "stmt" or not isinstance(n.ast, (ast.Assign, ast.AugAssign)):
+            if n.kind != "stmt" or not isinstance(n.ast, (ast.Assign, ast.AugAssign, ast.Return)) or n.ast.value is None:
                 continue
+            # the end position of the parsed destination is stored, or handed back to the caller (return href, res.pos, ...)
             v = n.ast.value
+            if isinstance(n.ast, ast.Return):
+                v = next((x for x in ast.walk(n.ast.value) if isinstance(x, ast.Attribute) and x.attr == "pos" and isinstance(x.value, ast.Name)
+                          and x.value.id in res_names), None)
             if not (isinstance(v, ast.Attribute) and v.attr == "pos" and isinstance(v.value, ast.Name) and v.value.id in res_names):
                 continue
             from ..reach import Reaching
